@@ -111,7 +111,7 @@ class Injector:
         r, a = self.rel(path)
         self._orig["os.mkdir"](path, mode)
         if r is not None:
-            self._emit(["mkdir", r], undo=lambda: os.rmdir(a))
+            self._emit(["mkdir", r], undo=lambda: self._orig["os.rmdir"](a))
 
     def _w_unlink(self, path, *, dir_fd=None):
         self._dead()
@@ -192,17 +192,20 @@ class Injector:
             self.flush()
             existed = os.path.lexists(a)
             before = ""
-            if existed and "a" in mode:
+            if existed:
                 with orig(a, "r", newline="") as fh:
                     before = fh.read()
             fh = orig(file, mode, *args, **kwargs)
             if "w" in mode or "x" in mode or not existed:
+                def restore(a=a, before=before):
+                    with orig(a, "w", newline="") as f2:
+                        f2.write(before)
                 try:
-                    self._emit(["create", r], undo=(lambda: self._orig["os.unlink"](a)) if not existed else None)
+                    self._emit(["create", r], undo=(lambda: self._orig["os.unlink"](a)) if not existed else restore)
                 except Crash:
                     fh.close()
                     raise
-            self.pending.append((a, r, "a" if "a" in mode else "w", before))
+            self.pending.append((a, r, "a" if "a" in mode else "w", before if "a" in mode else ""))
             return fh
         return f
 
